@@ -35,6 +35,12 @@ def _tyname(t):
     return ty_str(t)
 
 
+class LenConst(Const):
+    """The length of a concretely unrolled list (VecDeque / Vec).  Equal to the plain constant; the subclass only lets the simulator
+    notice when code compares the length with a threshold above it - behaviour that a bounded unrolling can never reach."""
+    __slots__ = ()
+
+
 class Sym(V):
     """Opaque atom identified by its name."""
     __slots__ = ("name", "ty", "_h")
